@@ -198,7 +198,7 @@ def play_scripts(d, seed, max_scripts):
     # votes only (every step is followed; the real commit rule then commits nothing conflicting); attacks on a weakened vote or
     # lock rule contain a vote the correct rules refuse
     def expected(s):
-        return "completed" if s["kind"] == "follow" or s["weak"] in ("commit2", "nodirect") else "refused"
+        return "completed" if s["kind"] == "follow" or s["weak"] in ("commit2", "nodirect", "gaplow", "gaphigh") else "refused"
     drift = [s for s in status if s["status"] != expected(s)]
     return rows, {"scripts_played": len(status), "script_outcomes": summ,
                   "script_conformance_drift": [{k: s[k] for k in ("job", "idx", "status", "at", "notes")} for s in drift[:10]],
